@@ -49,6 +49,17 @@ for cdf in (0, 1, 255, 256):
     if cdf >= 255:
         GROUPS.append(G("apdu.cmd_enc.cdf%d.search" % cdf, "harness/C08/apdu.c", "h_apdu_cmd_enc", APDU, defs=["CDF=%d" % cdf], level="N",
                         backend="native", search=300000, fn=["apduCmdEnc", "apduCmdDec"], note="native stand-in for the long-Lc forms; NOT proof"))
+STR = ["src/core/hex.c", "src/core/b64.c", "src/core/dec.c", "src/core/str.c", "src/core/mem.c", "src/core/util.c", "src/core/word.c", "src/core/u16.c", "src/core/u32.c", "src/core/u64.c"]
+for ent, fns, lens in (("h_hex", ["hexIsValid", "hexTo", "hexToRev", "hexFrom", "hexFromRev", "hexEq", "hexEq_fast", "hexEqRev", "hexEqRev_fast"], (0, 1, 2, 5, 6)),
+                       ("h_b64", ["b64IsValid", "b64To", "b64From"], (0, 3, 4, 7, 8)),
+                       ("h_dec", ["decIsValid", "decCLZ", "decToU32", "decFromU32", "decLuhnCalc", "decLuhnVerify", "decDammCalc", "decDammVerify"], (1, 4, 9))):
+    for ln in lens:
+        GROUPS.append(G("str.%s.len%d" % (ent[2:], ln), "harness/C08/strcodecs.c", ent, STR, defs=["SLEN=%d" % ln, "CNT=%d" % ((ln + 1) // 2 + 1)], level="B",
+                        bound="string length %d characters (all contents), exact-size objects" % ln, unwind=ln + 16, spec_unwind=ln + 16,
+                        unwindset=["strlen.0:%d" % (2 * ln + 16), "strLen.0:%d" % (2 * ln + 16), "strcmp.0:%d" % (2 * ln + 16)],
+                        search=100000, split=True, timeout=900, fn=fns, tier="thorough" if (ent == "h_dec" and ln == 9) else "quick"))
+        GROUPS.append(G("str.%s.len%d.search" % (ent[2:], ln), "harness/C08/strcodecs.c", ent, STR, defs=["SLEN=%d" % ln, "CNT=%d" % ((ln + 1) // 2 + 1)],
+                        level="N", backend="native", search=100000, fn=fns, note="native run of the same harness (incl. the decimal round trips that get no solver answer); NOT proof"))
 TRUSTED = ["CBMC's models of memmove/memcpy/strchr/strlen"]
 ASSUMPTIONS = ["output buffers are sized by the decoder's own length probe (len = dec(NULL,...), then dec(buf of exactly len,...)), as der.h prescribes"]
 NOT_COVERED = ["inputs longer than the stated CMAX", "bpki / CVC / bign parameter containers (modular composition not built yet)"]
